@@ -244,6 +244,10 @@ class OMPLoopTrans(ParallelLoopTrans):
                                    Config.get().reproducible_reductions)
 
         if self._reprod:
+            # Check that this transformation can be applied before we
+            # change anything (the symbols created below must not be left
+            # behind if the transformation is refused).
+            self.validate(node, options=options)
             # When reprod is True, the variables th_idx and nthreads are
             # expected to be declared in the scope.
             root = node.ancestor(Routine)
